@@ -182,6 +182,7 @@ Qed.
 Lemma po_drain fuel : forall i acc, po (drain fuel i acc).
 Proof.
   induction fuel as [|f IH]; intros i acc; cbn [drain]; [apply po_ret|].
+  destruct (Nat.leb MAX_BATCH (length acc)); [apply po_ret|].
   apply po_gsess_then. intros a. destruct (s_q a) as [|x r] eqn:Q; [apply pf_weaken, po_ret|].
   apply pf_bind.
   - apply pf_psess. split; [|cbn; auto]. intros [G1 G2]. split; [|exact G2].
